@@ -80,7 +80,7 @@ PROPS = {
                            {"width": "all 16 matrix entries (incl. the projective row), positions / boxes / derivative seeds symbolic on the lattice k/4, "
                                      "|k|<=8 (positions of the point harness: |k|<=16), homogeneous coordinate w in {+-0.5, +-1, +-2, +-4}: real "
                                      "arithmetic is exact in f32 there, so the assertions are exact and independent of operation order", "unwind": 8},
-                           LIBM_ASSUME[1:], [])],
+                           LIBM_ASSUME[1:], [], quick_timeout=1200, thorough_timeout=3600)],
     },
     "C15": {
         "level": "translation_validation",
